@@ -58,7 +58,7 @@ type Ent struct {
 type obsNop struct{}
 
 func (obsNop) OnPublishStart(ctx context.Context, _ string, _ any) context.Context { return ctx }
-func (obsNop) OnPublishComplete(context.Context, string)                          {}
+func (obsNop) OnPublishComplete(context.Context, string)                           {}
 func (obsNop) OnHandlerStart(ctx context.Context, _ string, _ bool) context.Context {
 	return ctx
 }
